@@ -1,7 +1,7 @@
 """GUARD: must-pass-through decision on the CFG (cut-set), with polarity and failure checks."""
 import ast
 
-from .cfg import cfg_of, returns_failure
+from .cfg import cfg_of, returns_failure, reach_ps
 from .dataflow import expand, origins, call_name
 from .loader import AnalysisError
 
@@ -57,9 +57,10 @@ def success_returns(cfg, fail="raise"):
     raise ValueError(fail)
 
 
-def check_guard(mod, fn, guards, targets, fail="raise", sources=None, extra_pass_nodes=(), bad_ok=None):
-    """Decide: every path from `sources` (default: entry) to a target passes the passing edge of a guard,
-    and the bad edge of every guard cannot reach a target / success exit.
+def check_guard(mod, fn, guards, targets, fail="raise", sources=None, extra_pass_nodes=(), exempt_edges=()):
+    """Decide: every feasible path from `sources` (default: entry) to a target passes the passing edge of a guard,
+    and the bad edge of every guard cannot reach a target.  `exempt_edges` {(node, label)} are removed
+    from the graph (paths the obligation does not speak about).  Path feasibility: product with pure predicates.
 
     Returns (ok, message, witness_path_text)."""
     cfg = cfg_of(fn)
@@ -67,33 +68,29 @@ def check_guard(mod, fn, guards, targets, fail="raise", sources=None, extra_pass
     if not targets:
         raise AnalysisError("no protected target found in %s" % fn.name)
     sources = list(sources) if sources is not None else [cfg.entry]
-    removed = set()
-    succ_ids = {n.id for n in success_returns(cfg, fail)}
+    exempt = set(exempt_edges)
+    removed = set(exempt)
     for g in guards:
         removed.add((g.node.id, g.pass_label))
-    # nodes that count as guards themselves (calls to helpers that enforce the guard): block them
     blocked = set(extra_pass_nodes)
-    # 1. polarity/failure: the bad edge must not reach a target (nor, unless bad_ok, a success return)
+    # 1. polarity/failure: the bad edge must not reach a target
     for g in guards:
-        bad_succ = [b for b, l in cfg.succ[g.node.id] if l == g.bad_label]
-        r = cfg.reach(bad_succ)
-        hit = r & targets
-        if not hit and bad_ok is None:
-            hit = set()
-        if hit:
-            p = cfg.path(bad_succ, hit)
+        r, p = reach_ps(cfg, [g.node.id], removed=exempt | {(g.node.id, g.pass_label), (g.node.id, "exc")}, targets=targets)
+        if r is None:
+            raise AnalysisError("path-sensitive search exceeded its state budget in %s" % fn.name)
+        if p:
             return (False, "the failing edge of the check `%s` (line %d, taken when the test is %s) still reaches the protected effect"
-                    % (ast.unparse(g.node.ast), g.node.lineno, g.bad_label), cfg.fmt_path([(g.node.id, g.bad_label)] + (p or [])))
+                    % (ast.unparse(g.node.ast), g.node.lineno, g.bad_label), cfg.fmt_path(p))
     # 2. cut
-    r = cfg.reach(sources, removed=removed, blocked=blocked)
-    hit = r & targets
-    if hit:
-        p = cfg.path(sources, hit, removed=removed, blocked=blocked)
+    r, p = reach_ps(cfg, sources, removed=removed, blocked=blocked, targets=targets)
+    if r is None:
+        raise AnalysisError("path-sensitive search exceeded its state budget in %s" % fn.name)
+    if p:
         if guards:
             msg = "a path reaches the protected effect without passing the check (%d matching check(s) elsewhere)" % len(guards)
         else:
             msg = "no check of the required form exists on any path to the protected effect"
-        return False, msg, cfg.fmt_path(p or [])
+        return False, msg, cfg.fmt_path(p)
     return True, "%d check(s) cut every path from entry to %d protected node(s)" % (len(guards), len(targets)), ""
 
 
